@@ -1,5 +1,6 @@
 //! Correspondence harness: runs the real ctap-types code on one case per input line and prints
 //! one canonical outcome line per case (same protocol as /verif/lean/Driver.lean).
+mod mock;
 mod support;
 mod val;
 
@@ -261,6 +262,58 @@ fn handle(line: &str, big: &mut [u8]) -> String {
             };
             let r = ctap_types::ctap1::register::Response::new(5, &key, ctap_types::Bytes::new(), ctap_types::Bytes::new(), ctap_types::Bytes::new());
             format!("ok {}", hex(&r.public_key))
+        }
+        ["call2", entry, lb, req, fail] => {
+            use ctap_types::ctap2::{Authenticator, Request, Response};
+            use ctap_types::Rpc;
+            let fail = if *fail == "-" { None } else {
+                let (m, c) = fail.split_once(':').expect("harness: fail spec");
+                Some((m.to_string(), c.parse::<u8>().expect("harness: fail code")))
+            };
+            let bytes;
+            let request = if let Some(b) = req.strip_prefix("vendor:") {
+                Request::Vendor(ctap_types::ctap2::VendorOperation::try_from(b.parse::<u8>().expect("harness: vendor byte")).expect("harness: not a vendor code"))
+            } else {
+                bytes = unhex(req).expect("harness: hex");
+                match Request::deserialize(&bytes) { Ok(r) => r, Err(_) => return "bad-case harness:_request_does_not_decode".into() }
+            };
+            let (_, payload) = glue::dump_request(&request);
+            let mut m = mock::Mock::new(fail);
+            let res = match (*entry, *lb) {
+                ("direct", "lb") => m.call_ctap2(&request),
+                ("rpc", "lb") => m.call(&request),
+                ("direct", "nolb") => { let mut w = mock::MockNoLb(m); let r = w.call_ctap2(&request); m = w.0; r }
+                ("rpc", "nolb") => { let mut w = mock::MockNoLb(m); let r = w.call(&request); m = w.0; r }
+                _ => return "bad-case".into(),
+            };
+            let same = if m.seen.is_empty() { "-" } else if m.seen.iter().all(|s| Some(s.clone()) == payload.as_ref().map(|p| p.show()) || (s == "-" && payload.is_none())) { "T" } else { "F" };
+            #[allow(unreachable_patterns)]
+            let r = match res {
+                Ok(Response::MakeCredential(_)) => "ok MakeCredential".to_string(), Ok(Response::GetAssertion(_)) => "ok GetAssertion".into(),
+                Ok(Response::GetNextAssertion(_)) => "ok GetNextAssertion".into(), Ok(Response::GetInfo(_)) => "ok GetInfo".into(),
+                Ok(Response::ClientPin(_)) => "ok ClientPin".into(), Ok(Response::Reset) => "ok Reset".into(),
+                Ok(Response::Selection) => "ok Selection".into(), Ok(Response::CredentialManagement(_)) => "ok CredentialManagement".into(),
+                Ok(Response::LargeBlobs(_)) => "ok LargeBlobs".into(), Ok(Response::Vendor) => "ok Vendor".into(),
+                Ok(_) => "ok ?".into(),
+                Err(e) => format!("err {}", e as u8),
+            };
+            format!("log={} same={} res={}", if m.log.is_empty() { "-".to_string() } else { m.log.join(",") }, same, r)
+        }
+        ["call1", entry, apdu, fail] => {
+            use ctap_types::ctap1::{Authenticator, Request, Response};
+            use ctap_types::Rpc;
+            let fail = if *fail == "-" { None } else { Some((fail.to_string(), 0u8)) };
+            let bytes = unhex(apdu).expect("harness: hex");
+            let view = iso7816::command::CommandView::try_from(bytes.as_slice()).expect("harness: apdu");
+            let request = match Request::try_from(view) { Ok(r) => r, Err(_) => return "bad-case harness:_apdu_rejected".into() };
+            let mut m = mock::Mock::new(fail);
+            let res = match *entry { "direct" => m.call_ctap1(&request), "rpc" => m.call(&request), _ => return "bad-case".into() };
+            let r = match res {
+                Ok(Response::Register(_)) => "ok Register".to_string(), Ok(Response::Authenticate(_)) => "ok Authenticate".into(),
+                Ok(Response::Version(v)) => format!("ok Version {}", hex(&v)),
+                Err(e) => { let sw: u16 = e.into(); format!("err {}", sw) }
+            };
+            format!("log={} res={}", if m.log.is_empty() { "-".to_string() } else { m.log.join(",") }, r)
         }
         ["tbl", name] => match glue::table(name) {
             Some(t) => t.iter().map(|(n, v)| format!("{}={}", n, v)).collect::<Vec<_>>().join(","),
